@@ -16,7 +16,10 @@ EXPLANATION = (
     "unparsable path) returns None before the policy; (W1) the schema-object dispatcher consults the extension first and returns on "
     "Some; (D3) CrateVers::parse maps \"!\"→Never, \"*\"→Any, else a semver version; (W2) a rename replaces the first path segment "
     "and parameters are converted by one in-order traversal and passed to the native constructor; (D4) a native whose name differs "
-    "from a required definition name is wrapped in a newtype."
+    "from a required definition name is wrapped in a newtype; (W3) the key under which a crate is stored in settings.crates and "
+    "the key it is looked up by undergo the same transformation of the crate name (none); (W4) the IR types inside the key of "
+    "the structural dedup map order their values by the data their equality compares, so that two uses of one external generic "
+    "type with different parameters stay distinct (shared with C16.W6)."
 )
 ASSUMPTIONS = ["semver::VersionReq::matches implements semver compatibility", "serde_json::from_value rejects extensions missing required members"]
 
@@ -45,6 +48,7 @@ def native_ctor_fns(c):
 
 def run(facts, rep, tier):
     c = facts.impl
+    run_w34(facts, rep)
     pf = find_policy_fn(c)
     if not rep.floor("C13.D1", "fn containing a match on CrateVers", len(pf), 1):
         return
@@ -281,3 +285,51 @@ def contains_closure_ancestor(root, node):
         if x is node:
             return any(a.get("k") == "closure" for a in anc)
     return False
+
+
+def key_transforms(e):
+    """method names applied to the base of a key expression, identity conversions removed"""
+    IDENT = {"to_string", "as_str", "clone", "as_ref", "to_owned", "into", "borrow", "deref", "as_deref", "cloned"}
+    out = []
+    from lib import strip_refs as _sr
+    e = _sr(e)
+    while isinstance(e, dict) and e.get("k") in ("mcall", "call"):
+        if e.get("k") == "mcall":
+            if e["name"] not in IDENT:
+                out.append(e["name"])
+            e = _sr(e["recv"])
+        else:
+            fn = (e.get("fn") or "").split("::")[-1]
+            if fn in ("from", "to_string", "into", "new") and e.get("args"):
+                e = _sr(e["args"][0])
+            else:
+                out.append(fn)
+                break
+    return out
+
+
+def run_w34(facts, rep):
+    import c16
+    c = facts.impl
+    sites = {"write": [], "read": []}
+    for h in c.user_fns():
+        for n, _ in nodes(h["body"], "mcall"):
+            rv = n.get("recv") or {}
+            from lib import strip_refs as _sr
+            rv = _sr(rv)
+            if rv.get("k") == "field" and rv["name"] == "crates" and "TypeSpaceSettings" in (c.ty(rv.get("bty")) or "") and n.get("args"):
+                if n["name"] in ("insert", "entry"):
+                    sites["write"].append((h, n))
+                elif n["name"] in ("get", "contains_key", "remove", "get_mut"):
+                    sites["read"].append((h, n))
+    rep.floor("C13.W3", "writers of settings.crates", len(sites["write"]), 1)
+    rep.floor("C13.W3", "readers of settings.crates", len(sites["read"]), 1)
+    trs = {kind: [(h, n, tuple(key_transforms(n["args"][0]))) for h, n in sites[kind]] for kind in ("write", "read")}
+    allt = {t for kind in trs for (_, _, t) in trs[kind]}
+    for kind in ("write", "read"):
+        for h, n, tr in trs[kind]:
+            ok = len(allt) == 1
+            rep.ob("C13.W3", "crate-key-same-spelling:%s:%s" % (kind, h["fn"]), ok,
+                   ("the crate name is the key%s at every writer and reader" % (" unchanged" if not tr else " after `%s`" % ".".join(reversed(tr)))) if ok else
+                   "at this %s site the crate name %s, but other sites use %s: a crate configured under one spelling is looked up under another, so it counts as unconfigured (or a `!`/version restriction is skipped)" % (kind, "goes through `%s`" % ".".join(reversed(tr)) if tr else "is used unchanged", sorted(".".join(reversed(t)) or "no transformation" for t in allt - {tr})), n.get("sp"))
+    c16.check_dedup_key_order(facts, rep, "C13.W4")
